@@ -6,7 +6,7 @@ dir_unix.c → dir_rec.c → dir_hl.c → dir_tree_iterator.c → glob.c:scan_di
 `sorted = true` is the model of the tree with fixes/C11-sorted-readdir.patch (native iterator sorts every
 directory); `sorted = false` is the code as pinned, for which the full statement is false (Sqfs/Witness/C11.lean).
 -/
-import Sqfs.Proofs.FsTreeScan
+import Sqfs.Proofs.FsTreePost
 
 namespace Sqfs.C11
 open Sqfs.FsTree
@@ -83,6 +83,15 @@ theorem repair_conservative (e : List HNode) (hwf : WFList e) (d : Defaults) (cf
   rw [h]
   rfl
 
+/-- Inode numbers and the file list are functions of the (sorted) tree alone: `fstree_post_process` — hard-link
+resolution with its link counts, `alloc_inode_num_dfs`, `reorder_hard_links`, `file_list_dfs` — gives the same result
+for every order of the `links_unresolved` list, the one piece of state next to the tree that records the order in which
+entries arrived.  Hypothesis `FlatLinks`: every pending link names an existing node that is neither a directory nor a
+link itself — what the hard-link filter hands out (it only ever records primary names). -/
+theorem numbering_deterministic {links₁ links₂ : List Path} (hp : links₁.Perm links₂) (tree : TNode)
+    (hflat : FlatLinks tree links₁) : postProcess tree links₁ = postProcess tree links₂ :=
+  postProcess_perm hp tree hflat
+
 /-! ### the hypotheses are satisfiable, the conclusion is not trivial -/
 
 private def st (mode ino : Nat) : Stat := { mode := mode, uid := 0, gid := 0, mtime := 0, dev := 1, ino := ino, rdev := 0 }
@@ -116,6 +125,25 @@ example : NoMultiLink [fa, fb, dd [fe]] ∧ WFList [fa, fb, dd [fe]] := by
 /-- … and fails of the witness forest (so `scan_perm_invariant_partial` does not contradict the witness) -/
 example : ¬ NoMultiLink [fa, fb, fc] := by
   simp [NoMultiLink, keysList, keysNode, fa, fb, fc, st, isDirMode, isType, Consts.sIFMT, Consts.sIFDIR]
+
+/-- `FlatLinks` holds of what the scan of `{a, b, c, e | a = c = e}` leaves behind: two pending links, both to `a` -/
+private def wcfg : Cfg :=
+  { flags := Consts.dirScanKeepUid ||| Consts.dirScanKeepGid ||| Consts.dirScanKeepMode, defUid := 0,
+    defGid := 0, defMode := 0, defMtime := 0, pfx := [], filePrefix := none, pattern := none }
+private def wd : Defaults := { uid := 0, gid := 0, mtime := 0, mode := 0o755 }
+private def fe' : HNode := .mk [0x65] (st 0o100644 10) [] []
+private def wscan : TNode × List Path :=
+  (scanInto true wd wcfg (fun _ _ _ => true) 1 [fa, fb, fc, fe'] (initRoot wd) []).getD (initRoot wd, [])
+
+example : wscan.2 = [[[0x65]], [[0x63]]] := by decide
+example : FlatLinks wscan.1 wscan.2 := by
+  intro p hp
+  have h2 : wscan.2 = [[[0x65]], [[0x63]]] := by decide
+  rw [h2] at hp
+  simp only [List.mem_cons, List.not_mem_nil, or_false] at hp
+  rcases hp with rfl | rfl
+  · exact ⟨[[0x61]], flatAt_of_flatAtB (by decide)⟩
+  · exact ⟨[[0x61]], flatAt_of_flatAtB (by decide)⟩
 
 example : (insertSorted (.mk [0x62] default []) [.mk [0x61] default [], .mk [0x63] default []]).map TNode.name
     = [[0x61], [0x62], [0x63]] := by decide
